@@ -61,6 +61,7 @@ Definition tmle_score0 (l : list row) : Q :=
   Qsum (fun r => ind (negb (trt r)) * ind (obs r) * (yval r - q0 r) / pa0 r) l.
 
 (* influence-curve style variance: sample variance (ddof 1) of the non-missing values over the number of rows *)
-Definition Qmean_list (v : list Q) : Q := Qsum (fun x => x) v / Qlen v.
+Definition Qmean_list (v : list Q) : Q := Qred (Qsumr (fun x => x) v / Qlen v).
 Definition var_ddof1 (v : list Q) : Q :=
-  let m := Qmean_list v in Qsum (fun x => (x - m) * (x - m)) v / (Qlen v - 1).
+  let m := Qmean_list v in Qred (Qsumr (fun x => Qred ((x - m) * (x - m))) v / (Qlen v - 1)).
+(* (Qred / Qsumr only keep the fractions reduced while evaluating; both are the identity up to ==) *)
